@@ -7,6 +7,7 @@
    update).  Every statement is for an arbitrary carrier, tree depth and width, tensor rank and axis. *)
 From Coq Require Import List ZArith Bool.
 From FJ Require Import Model.Num Model.Tensor Model.Bij Proofs.TensorP Proofs.TensorGet Proofs.BijP Proofs.BijCor.
+From FJ Require Proofs.MaskP.
 Import ListNotations.
 
 (* The main statement: on every well-constructed tree [sig_of b = Ok sg], every input of the declared shape
@@ -230,6 +231,25 @@ Example C08_example_vmap_cond_axis :
   run ZOps (Vmap 3 false (Some (-1)%Z) [Leaf (LAddCond [] (zt [2] [1; 10]%Z))]) Fwd (zt [3] [0; 0; 0]%Z)
       (Some (zt [2; 3] [1; 2; 3; 4; 5; 6]%Z)) = Ok (zt [3] [41; 52; 63]%Z, Sc 0%Z).
 Proof. vm_compute. split; reflexivity. Qed.
+(* Partial with a boolean mask (defect D14): a mask selector means exactly the integer-array selector of its True positions
+   (np.nonzero) -- the same resolved positions and kept axis, wherever it stands in the index tuple; a mask of the wrong
+   length is rejected; the positions are strictly increasing (no element twice, data order kept).  Storing the integer
+   indices instead of the mask therefore changes no method of Partial. *)
+Theorem C08_bool_mask_is_nonzero_indices : forall (pre post : list sel) (m : list bool) (s : shape),
+  nth_error s (length pre) = Some (length m) ->
+  resolve_idx (pre ++ SMask m :: post) s = resolve_idx (pre ++ SArr (mask_positions m) :: post) s.
+Proof. exact MaskP.mask_is_nonzero_indices_tuple. Qed.
+Print Assumptions C08_bool_mask_is_nonzero_indices.
+
+Theorem C08_bool_mask_wrong_length_rejected : forall (n : nat) (m : list bool),
+  length m <> n -> resolve_sel n (SMask m) = None.
+Proof. exact MaskP.mask_wrong_length_rejected. Qed.
+Print Assumptions C08_bool_mask_wrong_length_rejected.
+
+Theorem C08_bool_mask_positions_increasing : forall m : list bool, Sorted.StronglySorted Z.lt (mask_positions m).
+Proof. exact MaskP.mask_positions_increasing. Qed.
+Print Assumptions C08_bool_mask_positions_increasing.
+
 Example C08_example_concat_partial :
   run ZOps (Concat (-1) [Leaf (LLoc (zt [1; 1] [10]%Z));
                          Partial [SSlice None None None; SSlice None None (Some (-1)%Z)] [1; 2] (Leaf (LLoc (zt [1; 2] [100; 200]%Z)))])
